@@ -145,6 +145,7 @@ type BldObj struct {
 	Content ref.Block
 	Rand    *SimRand
 	Builds  int
+	Default bool // built without WithRNG: reads the process-wide default source
 }
 
 type AzObj struct {
@@ -416,6 +417,33 @@ func addAuthz(a biscuit.Authorizer, c *ref.Authz, perm []int, permChecks bool) {
 	type item struct {
 		kind int
 		idx  int
+	}
+	if len(perm) == 0 && (len(c.Facts)+2*len(c.Rules)+len(c.Checks))%3 == 0 {
+		// the same content through the bulk entry points (AddAuthorizer / AddBlock), which take the
+		// parser's result types; the choice is a function of the content, hence of the plan
+		pb := biscuit.ParsedBlock{}
+		for _, f := range c.Facts {
+			pb.Facts = append(pb.Facts, lower.Fact(f))
+		}
+		for _, r := range c.Rules {
+			pb.Rules = append(pb.Rules, lower.Rule(r))
+		}
+		for _, k := range c.Checks {
+			pb.Checks = append(pb.Checks, lower.Check(k))
+		}
+		if len(c.Policies)%2 == 0 {
+			pa := biscuit.ParsedAuthorizer{Block: pb}
+			for _, p := range c.Policies {
+				pa.Policies = append(pa.Policies, lower.Policy(p))
+			}
+			a.AddAuthorizer(pa)
+			return
+		}
+		a.AddBlock(pb)
+		for _, p := range c.Policies {
+			a.AddPolicy(lower.Policy(p))
+		}
+		return
 	}
 	var items []item
 	for i := range c.Facts {
